@@ -10,7 +10,9 @@ COQ_DIR = 'Sched'
 ASSUMPTIONS = [
     'component objects, engines, experiment/graph containers and rx delivery are fakes (sched_driver.py); the '
     'Controller object and all of its scheduling/termination methods are the real code',
-    'postMortemCheck is atomic (the stability waits inside _restartComponent are not interleaved with other callbacks)',
+    'postMortemCheck is atomic (the stability waits inside _restartComponent are not interleaved with other callbacks); that '
+    'finishedCheck changes nothing before it holds comp_lock is CHECKED (a third of the random schedules deliver every '
+    'finished-notification while the lock is held and compare the state seen meanwhile)',
     'no DoWhile placeholders, memoization hits, migration, optimizer, stage-in failures (Controller.sleep/wake_up and the '
     'controller part of a live patch — new graph object, parse_workflow_graph — ARE modelled and driven)',
 ]
@@ -44,9 +46,22 @@ def nontrivial(trace):
     return False
 
 
-def run_one(ctx, W, out, chooser, terms, tag, slow_pm=False, sleepy=False, with_cdb=False):
-    """sleepy: Controller.sleep()/wake_up() are among the events; the trace is then a term for Sched.Sleep.check_scase"""
-    trace, errors, complete, drv = SC.explore(W, out, chooser, slow_pm=slow_pm, sleepy=sleepy, with_cdb=with_cdb)
+ATOMIC = ('the model takes the handling of a finished-notification as one event under comp_lock: a notification that is '
+          'still waiting for the lock (a scheduler pass is under way) must not have changed what the controller decides on')
+
+
+def report_atomicity(ctx, case, drv, who='C01'):
+    for a in drv.atomicity[:1]:
+        ctx.disagree(dict(case, **a), 'a finished-notification changed %s before it held comp_lock' % ', '.join(a['changed_before_lock']),
+                     None, '%s atomicity of finishedCheck w.r.t. comp_lock (assumed by Sched.Model events)' % who)
+
+
+def run_one(ctx, W, out, chooser, terms, tag, slow_pm=False, sleepy=False, with_cdb=False, lockfin=False):
+    """sleepy: Controller.sleep()/wake_up() are among the events; the trace is then a term for Sched.Sleep.check_scase
+    lockfin: every finished-notification arrives while comp_lock is held (sched_driver.Driver.deliver_fin)"""
+    trace, errors, complete, drv = SC.explore(W, out, chooser, slow_pm=slow_pm, sleepy=sleepy, with_cdb=with_cdb, lockfin=lockfin)
+    if lockfin:
+        ctx.count('schedules_with_notifications_arriving_during_a_pass')
     evs = [t[0] for t in trace]
     ctx.case([W, sorted(out.items()), evs], nontrivial(trace))
     ctx.count('%s_schedules' % tag)
@@ -56,6 +71,7 @@ def run_one(ctx, W, out, chooser, terms, tag, slow_pm=False, sleepy=False, with_
     case = {'W': W, 'outcome': {str(k): v for k, v in out.items()}, 'schedule': evs}
     if errors:
         ctx.disagree(case, errors[0][-1500:], None, 'C01 driver: Controller.run raised an unexpected exception')
+    report_atomicity(ctx, case, drv)
     first_final = {}
     for (ev, pre, post) in trace:
         for c in range(len(W)):
@@ -190,6 +206,7 @@ def run(ctx):
     # the same with memoization switched on (a central database is configured), and a shut-down producer of a
     # non-aggregating consumer / a failed producer of a later-stage consumer under a configured database
     run_one(ctx, W, out, scripted(sched), terms, 'corpus', with_cdb=True)
+    run_one(ctx, W, out, scripted(sched), terms, 'corpus', lockfin=True)
     Wc = [SC.comp(sd=['KnownIssue']), SC.comp(mx=0), SC.comp(stage=1, preds=[0]), SC.comp(stage=1, preds=[1])]
     outc = {0: ['KnownIssue'], 1: ['UnknownIssue'], 2: ['Success'], 3: ['Success']}
     run_one(ctx, Wc, outc, scripted([('Start',), ('Exit', 0), ('PM', 0), ('Fin', 0), ('Tick',), ('Exit', 1), ('PM', 1),
@@ -253,7 +270,8 @@ def run(ctx):
                     return r2.choice(ticks) if r2.random() < bias else r2.choice(others)
                 return r2.randrange(len(en))
             # half of the second schedules run with memoization switched on (a central database that never matches)
-            run_one(ctx, W, out, ch, terms, 'random', slow_pm=(j == 1), with_cdb=(j == 1 and i % 2 == 0))
+            run_one(ctx, W, out, ch, terms, 'random', slow_pm=(j == 1), with_cdb=(j == 1 and i % 2 == 0),
+                    lockfin=(j == 0 and i % 3 == 0))
     # ---- the controller put to sleep and woken up (Controller.sleep / wake_up) at arbitrary points
     sterms = []
     Ws = [SC.comp(), SC.comp(preds=[0]), SC.comp(preds=[1], rep=True)]
